@@ -336,6 +336,16 @@ def identical(ex, st, a, b):
         return eq(a, b)
     if isinstance(a, VBool) or isinstance(b, VBool):
         return z3.BoolVal(False)
+    from .values import VFunc as _VFunc
+    if isinstance(a, _VFunc) and isinstance(b, _VFunc):
+        return z3.BoolVal(a.kind == b.kind and repr(a) == repr(b))
+    if (isinstance(a, VOpaque) and isinstance(b, _VFunc)) or (isinstance(b, VOpaque) and isinstance(a, _VFunc)):
+        # an unknown value compared with a known class / function object (marker classes such as PERMIT_ALL_LAYERS):
+        # unknown, but a function of the value
+        o, fn_ = (a, b) if isinstance(a, VOpaque) else (b, a)
+        import re as _re
+        nm = _re.sub(r'[^A-Za-z0-9_]', '_', repr(fn_))
+        return z3.Function('opaque_is_' + nm, o.t.sort(), z3.BoolSort())(o.t)
     if st.spec:
         return eq(a, b)
     raise Unsupported('`is` on %r, %r' % (a, b))
@@ -516,6 +526,10 @@ def getitem(ex, st, base, idx, node=None):
         if ck is not None:
             f = z3.Function('opaque_item_%s_%d' % (abs(hash(ck)), st.epoch), ObjSort, ObjSort)
             return [(st, VOpaque(f(base.t)))]
+        if isinstance(idx, VOpaque):
+            # unknown container, unknown key: unknown, but the same item for the same key while nothing was mutated
+            f = z3.Function('opaque_item2_%d' % st.epoch, ObjSort, ObjSort, ObjSort)
+            return [(st, VOpaque(f(base.t, idx.t)))]
         return [(st, VOpaque(name='item'))]
     raise Unsupported('subscript of %r (line %s)' % (base, getattr(node, 'lineno', '?')))
 
@@ -589,6 +603,9 @@ def slice(ex, st, base, lo, hi, step):
     if getattr(base, 'shape', None) == 'packed':
         from . import filemodel
         return filemodel.packed_slice(ex, st, base, lo, hi)
+    if isinstance(base, VOpaque):
+        ex.used_stubs.add('operators applied to opaque values yield opaque values (no TypeError modelled)')
+        return [(st, VOpaque(name='slice'))]
     if not isinstance(base, VSeq):
         raise Unsupported('slice of %r' % (base,))
     n = base.length()
@@ -841,6 +858,12 @@ def b_len(ex, st, args, kwargs, node):
         h = STUB_CLASSES[v.cls].get('__len__')
         if h:
             return h(ex, st, v)
+    if isinstance(v, VOpaque):
+        # unknown container: an unknown non-negative length, the same for the same value (a TypeError is not modelled)
+        n = z3.Function('opaque_len', ObjSort, z3.IntSort())(v.t)
+        st.assume(n >= 0)
+        ex.used_stubs.add('len(unknown value): unknown non-negative integer, functional (no TypeError modelled)')
+        return [(st, VInt(n))]
     raise Unsupported('len(%r)' % (v,))
 
 
@@ -894,6 +917,9 @@ def b_set(ex, st, args, kwargs, node):
             d = dict_set(ex, st, d, x, NONE)
             d.is_set = True
         return [(st, d)]
+    if isinstance(args[0], VOpaque):
+        ex.used_stubs.add('set(unknown iterable): an unknown container (membership tests on it are unknown, functional)')
+        return [(st, VOpaque(name='set'))]
     raise Unsupported('set(iterable)')
 
 
